@@ -86,6 +86,7 @@ def strblob_obligations(ctx):
 
 
 ARRAY_TYPES = "icrhtfdmsSbTFNI"
+ARRAY_TIMEOUT = 900
 
 
 def array_pairs(tier):
@@ -105,16 +106,18 @@ def array_obligations(ctx):
     UW = ["--unwind", "6", "--unwinding-assertions"]
     obls = []
     for a, b in array_pairs(ctx.tier):
-        # boolean x boolean: 7 x 7 T/F mixes; split by left length to keep each run short
-        for ln in ([0, 1, 2] if (a in "TF" and b in "TF") else [None]):
+        # boolean x boolean: 7 x 7 T/F mixes; split by the two lengths to keep each run short
+        splits = [(l, r) for l in range(3) for r in range(3)] if (a in "TF" and b in "TF") else [None]
+        for sp in splits:
             d = srcdefs(ctx); d.update({"H_ARRAY": None, "C16_LT": str(ord(a)), "C16_RT": str(ord(b))})
             name = "C16.array.%s_%s" % (a, b)
-            if ln is not None:
-                d["C16_LN"] = str(ln); name += ".ln%d" % ln
+            if sp is not None:
+                d["C16_LN"] = str(sp[0]); d["C16_RN"] = str(sp[1]); name += ".l%d_r%d" % sp
             obls.append(Obl(name, PID, S, entry="h_array", defines=d, includes=inc, mode="bounded",
                             bound="arrays of 0..2 elements (no nested arrays; string/blob elements of 0..1 bytes), both directions",
-                            cbmc=UW, timeout=100, case={"left element type": a, "right element type": b,
-                                                        "left length": "0..2" if ln is None else ln}))
+                            cbmc=UW, timeout=ARRAY_TIMEOUT, mem_gb=6,
+                            case={"left element type": a, "right element type": b,
+                                  "lengths": "0..2 x 0..2" if sp is None else "%d x %d" % sp}))
     d = srcdefs(ctx); d.update({"H_SPEC_LAWS_ARRAY": None})
     obls.append(Obl("C16.spec_laws.arrays", PID, S, entry="h_spec_laws_array", defines=d, includes=inc, mode="bounded",
                     bound="spec only: three arrays of 0..2 elements, element types F T I N S i h", cbmc=UW, timeout=100))
